@@ -337,12 +337,13 @@ class C19(Spec):
 
     def jobs(self, tier):
         q = tier == "quick"
-        j = [dict(kind="toggle", debounce=False, K=5 if q else 7, accessors=ACCESSORS if not q else ["get", "off"]),
+        j = [dict(kind="toggle", debounce=False, K=5 if q else 8, accessors=["get", "off"]),
              dict(kind="toggle", debounce=False, K=4 if q else 6, accessors=["on", "bool"] if q else ACCESSORS),
-             dict(kind="toggle", debounce=True, K=5 if q else 6, accessors=["get", "on"] if q else ACCESSORS),
+             dict(kind="toggle", debounce=True, K=5 if q else 5, accessors=["get", "on"] if q else ACCESSORS),
+             dict(kind="toggle", debounce=True, K=5 if q else 7, accessors=["bool", "off"] if q else ["get", "on"]),
              dict(kind="debouncer", K=6 if q else 10), dict(kind="debouncer", K=6 if q else 8, set_period=True),
-             dict(kind="filter", K=6 if q else 9), dict(kind="filter", K=4 if q else 6, default_bypass=True),
-             dict(kind="watchdog", K=5 if q else 7),
+             dict(kind="filter", K=6 if q else 7), dict(kind="filter", K=4 if q else 6, default_bypass=True),
+             dict(kind="watchdog", K=5 if q else 6),
              dict(kind="step", what="toggle"), dict(kind="step", what="debouncer"), dict(kind="step", what="steady")]
         return j
 
